@@ -34,6 +34,15 @@ def build(triples, order_seed=None, relabel=None, ident=None):
     return g
 
 
+def aggregate(g):
+    """the same triples as a read-only view over two graphs (the even and the odd triples)"""
+    from rdflib.graph import ReadOnlyGraphAggregate
+    a, b = Graph(), Graph()
+    for i, t in enumerate(sorted(g)):
+        (a if i % 2 else b).add(t)
+    return ReadOnlyGraphAggregate([a, b])
+
+
 def dump(g):
     return [[abst(s), abst(p), abst(o)] for s, p, o in g]
 
@@ -54,17 +63,36 @@ def replay(cfg, events):
                 elif op == "canon":
                     g, h = build(e["g"], e.get("og")), build(e["h"], e.get("oh"), e.get("relabel"))
                     e["h"] = dump(h)
+                    if e.get("agg"):        # the graphs are handed over as views over several graphs
+                        g, h = aggregate(g), aggregate(h)
                     e["cg"], e["ch"] = dump(to_canonical_graph(g)), dump(to_canonical_graph(h))
                 elif op == "diff":
                     g, h = build(e["g"], e.get("og")), build(e["h"], e.get("oh"))
+                    if e.get("agg"):
+                        g, h = aggregate(g), aggregate(h)
                     both, first, second = graph_diff(g, h)
                     # graph_diff works on canonical labels: report g and h through the same canonicalisation
                     e["both"], e["first"], e["second"] = dump(both), dump(first), dump(second)
                 elif op == "skolem":
                     g = build(e["g"], e.get("og"))
                     kw = {"authority": e["authority"]} if e.get("authority") else {}
-                    sk = g.skolemize(**kw)
-                    e["g2"] = dump(sk.de_skolemize())
+                    tgt = e.get("target")
+                    if tgt:
+                        # the caller supplies the graphs the results go to (empty, or holding a triple already) and reads those
+                        extra = (URIRef("urn:x:pre"), URIRef("urn:x:pre"), URIRef("urn:x:pre"))
+                        t1, t2 = Graph(), Graph()
+                        if tgt == "nonempty":
+                            t1.add(extra)
+                            t2.add(extra)
+                        g.skolemize(new_graph=t1, **kw)
+                        t1.remove(extra)
+                        sk = t1
+                        sk.de_skolemize(new_graph=t2)
+                        t2.remove(extra)
+                        e["g2"] = dump(t2)
+                    else:
+                        sk = g.skolemize(**kw)
+                        e["g2"] = dump(sk.de_skolemize())
                     e["sk_bnodes"] = sum(1 for t in sk for x in t if isinstance(x, BNode))
                 elif op == "eq_history":
                     # one IsomorphicGraph compared again and again while it changes by every route there is
